@@ -83,10 +83,14 @@ def pyval(x):
     return x
 
 
-def gen_batch(env, tag, arms, nmax, reward='real', nmin=1, d=0, fixed_n=None, ctx_name=None):
-    """a training batch whose size, row-to-arm assignment and values are chosen by the solver"""
+def gen_batch(env, tag, arms, nmax, reward='real', nmin=1, d=0, fixed_n=None, ctx_name=None, fixed_dec=False):
+    """a training batch whose size, row-to-arm assignment and values are chosen by the solver
+    (fixed_dec: rows are assigned to the arms round-robin instead)"""
     n = fixed_n if fixed_n is not None else env.choose('n_%s' % tag, list(range(nmin, nmax + 1)))
-    dec = [env.choose('d_%s_%d' % (tag, i), arms) for i in range(n)]
+    if fixed_dec:
+        dec = [arms[i % len(arms)] for i in range(n)]
+    else:
+        dec = [env.choose('d_%s_%d' % (tag, i), arms) for i in range(n)]
     if reward == 'binary':
         rew = env.binaries('r_%s' % tag, n)
     elif reward == 'nonneg':
@@ -266,12 +270,13 @@ def query(env, tag, m, d):
 
 
 def trained(env, lp, npol, N, A, d=1, labels='int', tag='', partial=0, n_jobs=1, hp=None, seed=None, binarizer=None,
-            data=None):
+            data=None, fixed_dec=False):
     """a bandit trained through the public API on N symbolic rows (+ `partial` rows by partial_fit)"""
     arms = list(LABELS[labels][:A])
     ctxd = d if needs_contexts(lp, npol) else 0
     if data is None:
-        dec, rew, ctx = gen_batch(env, 'h' + tag, arms, N + partial, reward_kind(lp), d=ctxd, fixed_n=N + partial)
+        dec, rew, ctx = gen_batch(env, 'h' + tag, arms, N + partial, reward_kind(lp), d=ctxd, fixed_n=N + partial,
+                                  fixed_dec=fixed_dec)
         dec = np.asarray(dec)
     else:
         dec, rew, ctx = data
@@ -292,3 +297,50 @@ def is_nan(x):
 
 
 NP_QUICK = ['radius:cityblock', 'knearest:2:cityblock', 'lsh:1:1', 'clusters:2', 'tree']
+
+
+def sync_streams(src, dst):
+    """give dst the random-stream positions of src (same sharing structure): used by relational oracles that allow
+    two bandits to differ only in how far their generators have advanced"""
+    import copy as _copy
+    dst._rng.rng = _copy.deepcopy(src._rng.rng)
+
+    def models(m):
+        imp = m._imp
+        for holder in (imp, getattr(imp, 'lp', None)):
+            if holder is not None and hasattr(holder, 'arm_to_model'):
+                return holder.arm_to_model
+        return None
+    ms, md = models(src), models(dst)
+    if ms is not None and md is not None:
+        memo = {id(src._rng): dst._rng}
+        for a in ms:
+            if a not in md:
+                continue
+            r = ms[a].rng
+            if id(r) not in memo:
+                memo[id(r)] = _copy.deepcopy(r)
+            md[a].rng = memo[id(r)]
+    if hasattr(src._imp, 'lp_list'):
+        for ls, ld in zip(src._imp.lp_list, dst._imp.lp_list):
+            if hasattr(ls, 'arm_to_model'):
+                memo = {id(src._rng): dst._rng}
+                for a in ls.arm_to_model:
+                    r = ls.arm_to_model[a].rng
+                    if id(r) not in memo:
+                        memo[id(r)] = _copy.deepcopy(r)
+                    if a in ld.arm_to_model:
+                        ld.arm_to_model[a].rng = memo[id(r)]
+
+
+def compare_on_copies(env, tag, b1, b2, ctxd, m=1, kinds=('expectations', 'predict'), kf=None):
+    """isolated blocks: deep copies of the two bandits answer the same symbolic query; outputs must be equal"""
+    import copy as _copy
+    for what in kinds:
+        t = '%s.%s' % (tag, what[:4])
+
+        def blk(t=t, what=what):
+            c1, c2 = _copy.deepcopy(b1), _copy.deepcopy(b2)
+            q = env.reals('q_%s' % t, (m, ctxd)) if ctxd else None
+            outputs_equal(env, t, ask(c1, what, q), ask(c2, what, q), kf)
+        env.isolated(t, blk)
